@@ -10,7 +10,7 @@ LEVEL = "model_checking"
 RULE = ("records = real Grid.diff/interp/min/max calls on random simple grids (1-3 axes, any position subset with "
         "center, n 2..6, 0-2 extra dims in any order, to omitted/scalar/mapping, rule and fill per call or grid "
         "default, small integer data); non-trivial = distinct (op, per-axis (from,to,rule in force), ndim) classes"
-        ' Inputs also vary in spelling and state: numpy-scalar fill values, memory layouts (F-order, strided, negative stride, read-only), decreasing / irregular / unsorted coordinate labels, earlier calls with other per-call rules on the same Grid, Grid-level mappings naming only some axes, an extra dimension of length 0.')
+        ' Inputs also vary in spelling and state: numpy-scalar fill values, memory layouts (F-order, strided, negative stride, read-only), decreasing / irregular / unsorted coordinate labels, earlier calls with other per-call rules on the same Grid, Grid-level mappings naming only some axes, an extra dimension of length 0, the axes given as a tuple.')
 
 OPS = ["diff", "interp", "min", "max"]
 
@@ -108,6 +108,8 @@ def gen_case(rng, cid, ops=OPS, nmax=5, maxelems=120, ev="Stencil", allow_empty=
         if rng.random() < 0.2:
             args["npnum"] = rng.choice(["f64", "f32", "i64", "float"])
         if rng.random() < 0.2:
+            args["axis_as_tuple"] = True          # "Multiple axes can be passed as list or tuple"
+        if rng.random() < 0.2:
             # earlier calls on the same Grid with other per-call rules: the rule in force for a call is that call's
             # argument or the Grid's setting, never what an earlier call was given
             case["before"] = [{"boundary": gen.rand_tagged(rng, axnames, gen.RULES, partial=True),
@@ -155,6 +157,8 @@ def execute(case):
         axis = [nm(a) for a in case["args"]["axis"]]
         if case["args"].get("axis_as_str") and len(axis) == 1:
             axis = axis[0]
+        elif case["args"].get("axis_as_tuple"):
+            axis = tuple(axis)
         for b in case.get("before", []):
             try:
                 getattr(grid, case["op"])(da, axis, **dict(kw, **model.call_kwargs(b, nm)))
